@@ -395,8 +395,15 @@ class Interp:
         params = [a.arg for a in fn.args.args]
         for p, a in zip(params, args):
             env[p] = a
+        if fn.args.vararg is not None:
+            env[fn.args.vararg.arg] = tuple(args[len(params):])
+        elif len(args) > len(params):
+            raise PyError('TypeError', getattr(fn, 'lineno', 0))
         for k, v in (kwargs or {}).items():
             env[k] = v
+        for a_, d_ in zip(fn.args.kwonlyargs, fn.args.kw_defaults):
+            if a_.arg not in env and d_ is not None:
+                env[a_.arg] = self.expr(d_, {})
         defaults = fn.args.defaults
         for p, d in zip(params[len(params) - len(defaults):], defaults):
             if p not in env:
@@ -573,6 +580,31 @@ class Interp:
                     self.block(s.finalbody, env)
         elif isinstance(s, ast.Assert):
             return
+        elif isinstance(s, ast.Match):
+            subj = self.expr(s.subject, env)
+            def pat(p_, v):
+                if isinstance(p_, ast.MatchValue):
+                    return self.truth(self.compare(ast.Eq(), v, self.expr(p_.value, env), p_), p_)
+                if isinstance(p_, ast.MatchSingleton):
+                    return v is p_.value
+                if isinstance(p_, ast.MatchOr):
+                    return any(pat(q_, v) for q_ in p_.patterns)
+                if isinstance(p_, ast.MatchAs):
+                    if p_.pattern is not None and not pat(p_.pattern, v):
+                        return False
+                    if p_.name:
+                        env[p_.name] = v
+                    return True
+                if isinstance(p_, ast.MatchClass) and not p_.patterns and not p_.kwd_patterns:
+                    return self.truth(self.isinstance_(v, self.expr(p_.cls, env), p_), p_)
+                if isinstance(p_, ast.MatchSequence) and isinstance(v, (tuple, list, AList)) and not any(isinstance(q_, ast.MatchStar) for q_ in p_.patterns):
+                    items_ = v.items if isinstance(v, AList) else list(v)
+                    return len(items_) == len(p_.patterns) and all(pat(q_, x_) for q_, x_ in zip(p_.patterns, items_))
+                raise Unknown(f"match pattern {type(p_).__name__} at line {p_.lineno}")
+            for c_ in s.cases:
+                if pat(c_.pattern, subj) and (c_.guard is None or self.truth(self.expr(c_.guard, env), c_.guard)):
+                    self.block(c_.body, env)
+                    break
         else:
             raise Unknown(f"statement {type(s).__name__} at line {s.lineno}")
 
@@ -1210,6 +1242,8 @@ class Interp:
         for a in e.args:
             if isinstance(a, ast.Starred):
                 v = self.expr(a.value, env)
+                if isinstance(v, (AOpaque, AInt, AStr)) or v is None:
+                    raise Unknown(f"* of {type(v).__name__} at line {e.lineno}")
                 args.extend(v.items if isinstance(v, AList) else list(v))
             else:
                 args.append(self.expr(a, env))
